@@ -86,6 +86,31 @@ def ARd.fuel (r : ARd) : Nat := r.rem.length + r.acts.length + 2
 def pollAwait (f : Deframer) (fuel : Nat) (b : AB) (r : ARd) : AB × ARd × Res :=
   fromAwait (pollLoop f fuel) b r
 
+
+/-! ### `AsyncFixedBuf::copy_once_from` (and, with scripts without `pending`, the blocking one) at the abstract level -/
+
+inductive CofRes where
+  | ok (n : Nat) | invalid | ioErr (kind : ErrKind) | pending
+deriving DecidableEq, Repr
+
+/-- one poll of a `copy_once_from` future.  The future has a single await point and holds no state besides the
+    borrowed buffer and reader: a poll of a suspended future and the first poll of a new one are the same function -/
+def cofPoll (b : AB) (r : ARd) : AB × ARd × CofRes :=
+  if b.free = 0 then (b, r, .invalid) else
+  match r.read b.free with
+  | (.pending, r') => (b, r', .pending)
+  | (.err e, r') => (b, r', .ioErr e)
+  | (.data c, r') => (b.append c, r', .ok c.length)
+
+/-- a conversation: poll until the result is Ready; at every Pending the caller may equally well drop the future and
+    call again (same function) -/
+def cofDrive : Nat → AB → ARd → AB × ARd × CofRes
+  | 0, b, r => (b, r, .pending)
+  | n + 1, b, r =>
+    match cofPoll b r with
+    | (b', r', .pending) => cofDrive n b' r'
+    | out => out
+
 /-- abstraction of a concrete buffer -/
 def Buf.abs (b : Buf) : AB := { size := b.mem.length, ri := b.ri, q := b.readable }
 
